@@ -42,9 +42,11 @@ func init() {
 			RunHashKill(p, r, pkgScope(flowAreas[id]...))
 			RunRelax(p, r, id, pkgScope(flowAreas[id]...))
 			if id == "C12" {
-				r.Engines = append(r.Engines, "emuwidth(EMU-WIDTH)")
-				r.Explanation += " EMU-WIDTH (intrinsic): every group of limbs that std/math/emulated slices out of a hint result is itself (not merely a value computed from it) range-checked or asserted boolean, in the function or at every same-package call site the group is returned to; unconstrained limb groups are arbitrary native field elements, for which the random-point polynomial identity holds only modulo the native field."
+				r.Engines = append(r.Engines, "emuwidth(EMU-WIDTH,EMU-FLAG)")
+				r.Explanation += " EMU-WIDTH (intrinsic): every group of limbs that std/math/emulated slices out of a hint result is itself (not merely a value computed from it) range-checked or asserted boolean, in the function or at every same-package call site the group is returned to; unconstrained limb groups are arbitrary native field elements, for which the random-point polynomial identity holds only modulo the native field. EMU-FLAG (intrinsic): the trust flag Element.modReduced is only ever set to false, copied, or set behind a dominating AssertIsLessOrEqual on the same element."
 				RunEmuWidth(p, r, e)
+				RunEmuFlag(p, r)
+				r.RequireMin("EMU-FLAG", 3)
 				r.RequireMin("EMU-WIDTH", 8)
 			}
 			r.RequireMin("FLOW-REF", min)
